@@ -37,7 +37,9 @@ def corpus():
         for t in ("", "#TITLE;", "#ATTACKS;", "junk #TITLE:a;", "#TITLE:a;junk", "﻿#TITLE:a;", "﻿\n#TITLE:a;", "#A:1\n#B:2;",
                   "#title:x;#TITLE:y;#Artist:z;", "#VERSION:0.83;#NOTEDATA:;#CHARTNAME;#NOTES:0;#AFTER:1;#NOTEDATA:;#notes2:1;",
                   "#version:1;#TITLE:x;", "#NOTES:a:b:c;", "#NOTES:a:b:c:d:e:f:g:h;", "#DISPLAYBPM:1:2:3;#ATTACKS::x;", "#X:1\n;junk#:#B;",
-                  "#NOTEDATA:;#displaybpm:60:240;#NOTES:0000;", "#A:b\\"):
+                  "#NOTEDATA:;#displaybpm:60:240;#NOTES:0000;", "#A:b\\",
+                  "#NOTES:dance-single:C\\\\:Songs:Easy:3:0,0:0000;", "#NOTES:dance-single:desc:Easy:3:0,0\\\\:0000:x\\\\:;",       # components ending in a backslash: from_str meets "\\:" in the joined string
+                  "# Version:0.83;#TITLE:t;", "#VERSION\n#TITLE:x;#NOTES:a:b:c:d:e:0;", "#VERSION :0.83;#NOTEDATA:;#NOTES:0;"):
             out.append({"t": ["lit", t], "strict": strict, "names": ["a.txt", "a.sm", "a.ssc", "noext", "sm"]})
     return out
 
